@@ -22,6 +22,11 @@ def target(tag: str = "", val: int = 0) -> None:
     return None
 
 
+def target2(tag: str = "", val: int = 0) -> None:
+    """a second launched task (two triggers that share a condition)"""
+    return None
+
+
 # --- argument providers (module level: they are serialised by module + name) ------------------
 def from_event(ctx: Any) -> dict:
     return {"tag": f"event:{ctx.event_code}", "val": ctx.payload["v"]}
